@@ -532,15 +532,29 @@ class HistoryMonitor(Monitor):
                                  "masses is %r" % (what, root, vr, expect_v), ctx)
                     continue
             xr = self.pos_at(snap[root], t)
+            # nearest images of the point masses with respect to each other (anchored at the first one), not with
+            # respect to the stored root position: a root misplaced by L/2 would otherwise fold both members of a
+            # dipole to opposite sides of itself and look centred
             bary = [0.0] * self.dim
+            x0 = self.pos_at(snap[children[0]], t)
+            ambiguous = False
             for c in children:
                 xc = self.pos_at(snap[c], t)
                 w = self.structure0[c][0]
                 for i in range(self.dim):
                     L = self.lengths[i]
-                    d = xc[i] - xr[i]
+                    d = xc[i] - x0[i]
                     d -= L * round(d / L)
+                    if abs(d) > 0.45 * L:
+                        ambiguous = True
                     bary[i] += w * d
+            if ambiguous:     # object as long as half the box: "nearest image" is not defined
+                self.stats["composite_ambiguous"] = self.stats.get("composite_ambiguous", 0) + 1
+                continue
+            for i in range(self.dim):
+                L = self.lengths[i]
+                d = x0[i] + bary[i] - xr[i]
+                bary[i] = d - L * round(d / L)
             for i in range(self.dim):
                 if abs(bary[i]) > 1e-8 * self.lengths[i]:
                     self.verdict("C12", "barycentre", "%s: object %r at %r is displaced by %r from the weighted "
